@@ -535,6 +535,8 @@ def attach_extension(g, ext):
     g['EXTRA_TARGETS'] = list(g.get('EXTRA_TARGETS', [])) + [t for t in ext.EXTRA_TARGETS if t not in g.get('EXTRA_TARGETS', [])]
     g['EXTRA_ROOTS'] = list(g.get('EXTRA_ROOTS', [])) + list(getattr(ext, 'EXTRA_ROOTS', []))
     g['GEN'] = list(g.get('GEN', [])) + [t for t in getattr(ext, 'GEN', []) if t not in g.get('GEN', [])]
+    if getattr(ext, 'LEVEL_TEXT_EXT', None):       # one sentence per extension for MANIFEST level_claimed.text
+        g['LEVEL_TEXT'] = g.get('LEVEL_TEXT', '') + ' EXTENSION ' + ext.__name__.split('.')[-1] + ': ' + ext.LEVEL_TEXT_EXT
     base_streams = g['streams']
     base_replay = g.get('replay')
 
